@@ -6,5 +6,7 @@ CONSTANTS
   MaxGenerations = 2
   MaxGenerations = 2
   AsFound_KUndefined = FALSE
+  AsFound_ChainedLagNoSeries = FALSE
+  AsFound_OwnNamesAccepted = FALSE
 POSTCONDITION AllConsumed
 CHECK_DEADLOCK FALSE
